@@ -645,7 +645,7 @@ ERRORS = [
     ("duplicate-operand", "cx q[0], q[0];"), ("duplicate-operand-reg", "cx q, q[0:3];"), ("duplicate-barrier", "barrier q[1], q[1];"),
     ("duplicate-sub-arg", "s2(q[{1, 1}]);"),
     ("type-range-int", "int[4] big = 100;"), ("type-range-assign", "iv = 1000;"), ("type-range-float", "float[32] ff = 1e39;"),
-    ("bad-width", "float[16] hf = 1.0;"), ("bad-width-zero", "int[0] z = 0;"),
+    ("bad-width", "float[16] hf = 1.0;"), ("bad-width-neg", "const int[8] mw = 2; int[mw - 3] z = 0;"),
     ("gate-param-count", "g1(1, 2) q[0];"), ("gate-param-count0", "g1 q[0];"), ("gate-qubit-count", "g2 q[0];"),
     ("gate-qubit-count-lib", "cx q[0], q[1], q[2];"), ("sub-arg-count", "s1(q[0]);"), ("sub-qubit-size", "s2(q[0]);"),
     ("sub-qubit-size2", "s2(q);"), ("measure-size", "c = measure r;"), ("non-const-size", "int n2 = 2; qubit[n2] qq;"),
@@ -654,7 +654,7 @@ ERRORS = [
     ("dup-include", 'include "stdgates.inc";'), ("dup-case", "switch (iv) { case 1, 1 { x q[0]; } }"),
     ("switch-non-int-target", "switch (fv) { case 1 { x q[0]; } }"), ("switch-non-const-case", "switch (iv) { case iv { x q[0]; } }"),
     ("switch-empty", "switch (iv) { }"), ("unsupported-while", "while (bv) { x q[0]; }"),
-    ("unsupported-stmt-end", "end;"), ("return-top", "return 1;"), ("alias-unknown", "let al = nope;"),
+    ("unsupported-stmt-end", "end;"), ("alias-unknown", "let al = nope;"),
     ("alias-range", "let al = q[0:7];"), ("cond-on-creg-ident", "if (c) { x q[0]; }"), ("cond-creg-op", "if (c[0] > 0) { x q[0]; }"),
     ("classical-arg-is-qubit", "def s3(int[8] n) { } s3(q);"), ("qubit-arg-is-classical", "s1(iv, 1);"),
     ("return-type-mismatch", "def s4(qubit a) -> int[8] { h a; return; } s4(q[0]);"),
@@ -663,8 +663,44 @@ ERRORS = [
     ("unsupported-imag", "rx(2im) q[0];"), ("bitnot-float", "rx(~1.5) q[0];"), ("unknown-op", "rx(2 ** 3) q[0];"),
     ("index-non-array", "rx(iv[0]) q[0];"), ("sizeof-non-array", "int[8] sz = sizeof(iv);"),
     ("discrete-set-nonliteral", "h q[{iv}];"), ("gate-body-index", "gate gb x { h x[0]; } gb q[0];"),
-    ("gate-recursive", "gate gr x { gr x; } gr q[0];"), ("gate-body-nongate", "gate gn x { reset x; } gn q[0];"),
+    ("gate-recursive", "gate gr x { gr x; } gr q[0];"),
+    ("lib-gate-param-count-missing", "rx q[0];"), ("lib-gate-param-count-extra", "h(0.5) q[0];"),
+    ("lib-gate-param-count-u3", "u3(1, 2) q[0];"), ("lib-gate-param-count-cu", "cu3(1, 2) q[0], q[1];"),
+    ("gate-body-undeclared-qubit", "gate gq x { h yy; } gq q[0];"),
+    ("index-range-set", "h q[{0, 5}];"), ("index-range-set-alias", "let als = q[{0, 7}];"),
+    ("measure-no-target", "measure q[0];"), ("gate-mutual-recursion", "gate ga x { gb x; } gate gb x { ga x; } ga q[0];"),
+    ("pow-non-integer", "pow(1.5) @ x q[0];"), ("division-by-zero", "int[8] dz = 1 / 0;"), ("negative-shift", "int[8] ns = 1 << -1;"),
+    ("sub-arg-count-extra", "s1(q[0], 1, 2);"), ("sub-scalar-arg-range", "s1(q[0], 300);"),
+    ("index-range-sub-arg", "s1(q[5], 1);"), ("index-range-sub-slice", "s2(q[2:4]);"),
+    ("assign-to-qubit", "q = 1;"), ("undeclared-in-condition", "if (nope == 1) { x q[0]; }"),
+    ("undeclared-loop-bound", "for int lw in [0:nope] { x q[0]; }"), ("undeclared-in-pow", "pow(nope) @ x q[0];"),
+    ("undeclared-in-index", "h q[nope];"), ("undeclared-in-slice", "h q[0:nope];"),
+    ("duplicate-measure-bits", "c[{0, 0}] = measure q[{0, 1}];"), ("index-range-reset", "reset q[3];"),
+    ("index-range-barrier", "barrier q[0], q[4];"), ("undeclared-barrier", "barrier nope;"), ("undeclared-reset", "reset nope[0];"),
 ]
+ERRORS += [
+    ("duplicate-via-alias", "let dal = q[0:2]; cx dal[0], q[0];"),
+    ("duplicate-two-aliases", "let da1 = q[0:2]; let da2 = q[1:3]; cx da1[1], da2[0];"),
+    ("duplicate-alias-whole", "let da3 = q[{2, 0}]; ccx da3, q[2];"),
+    ("duplicate-barrier-alias", "let da4 = q[1:3]; barrier da4[0], q[1];"),
+    ("out-of-scope-global-in-sub", "def os1(qubit a) { rx(iv) a; } os1(q[0]);"),
+    ("out-of-scope-global-in-sub-if", "def os2(qubit a) { if (true) { rx(iv) a; } } os2(q[0]);"),
+    ("out-of-scope-global-in-sub-for", "def os3(qubit a) { for int k in [0:1] { rx(fv) a; } } os3(q[0]);"),
+    ("out-of-scope-global-in-sub-switch", "def os7(qubit a, int[8] sw) { switch (sw) { case 1 { rx(iv) a; } } } os7(q[0], 1);"),
+    ("out-of-scope-assign-in-sub-if", "def os4(qubit a) { if (true) { iv = 3; } } os4(q[0]);"),
+    ("out-of-scope-assign-in-sub", "def os8(qubit a) { iv = 3; } os8(q[0]);"),
+    ("out-of-scope-qubit-in-sub", "def os9(qubit a) { h q[0]; } os9(q[1]);"),
+    ("out-of-scope-qubit-in-sub-if", "def os10(qubit a) { if (true) { h r; } } os10(q[1]);"),
+    ("out-of-scope-after-block", "if (true) { int[8] tmp = 1; } rx(tmp) q[0];"),
+    ("out-of-scope-loop-var", "for int lq in [0:1] { x q[0]; } rx(lq) q[0];"),
+    ("out-of-scope-sub-local", "def os5(qubit a) { int[8] loc = 1; } os5(q[0]); rx(loc) q[0];"),
+    ("out-of-scope-gate-param", "gate gp(a) x { rx(a) x; } gp(1) q[0]; rx(a) q[0];"),
+    ("out-of-scope-formal-qubit", "def os6(qubit fq) { h fq; } os6(q[0]); h fq;"),
+    ("out-of-scope-alias", "if (true) { let ba = q[0:2]; } h ba;"),
+    ("out-of-scope-nonconst-in-gate", "gate gs x { rx(iv) x; } gs q[0];"),
+    ("readonly-arg-assign", "def os11(qubit a, int[8] n) { cc = n; } os11(q[0], 1);"),
+]
+TOP_ONLY = {"gphase-qubits-global", "redeclared-var"}
 
 CONTEXTS = [
     ("top", "%s"),
@@ -678,15 +714,22 @@ CONTEXTS = [
     ("nested", "for int lv in [0:1] { if (lv == 0) { %s } }"),
     ("if-meas", "c[0] = measure q[0]; if (c[0] == 1) { %s }"),
 ]
+CONTEXTS += [
+    ("sub-if", "def ctxsub2(qubit qa) { if (true) { %s } } ctxsub2(q[0]);"),
+    ("sub-for", "def ctxsub3(qubit qa) { for int sv in [0:1] { %s } } ctxsub3(q[0]);"),
+    ("gate-call-in-for-in-sub", "def ctxsub4(qubit qa) { for int sv in [0:0] { if (sv == 0) { %s } } } ctxsub4(q[1]);"),
+]
 
 # statements that cannot appear in some contexts (declarations of gates/subs/qubits inside switch...)
 def error_cases():
     out = []
     for cls, st in ERRORS:
         for ctx, tpl in CONTEXTS:
+            if cls in TOP_ONLY and ctx != "top":
+                continue
             if ctx != "top" and any(k in st for k in ("def ", "gate g", "include", "qubit q", "qubit[")) :
                 continue
-            if ctx == "sub-body" and any(k in st for k in (" q[", " q;", " q,", "(q", " r;", "c[", "c =", "(c", "iv", "fv", "bv", "return", "s1(", "s2(", "nosub")):
+            if ctx.startswith(("sub-", "gate-call-in")) and (cls.startswith(("redeclared", "keyword", "cond-")) or "measure" in st or "return" in st):
                 continue
             if ctx in ("switch-case", "switch-default") and st.startswith(("int", "float", "const", "bit")) and "[" not in st.split()[0]:
                 pass
